@@ -390,6 +390,113 @@ def replay_findings(ctx, harness):
         ctx.known("%s %s" % (f.get("id"), f.get("what", "")))
 
 
+
+# ---------------------------------------------------------------------------------------------
+# responses that point into OTHER documents: definition links and hierarchy items (black box, real binary)
+# ---------------------------------------------------------------------------------------------
+def _ws_files(rng):
+    """2..4 classes in a chain / fan; members declared on lines the referring file may not have (the referring file is
+    kept short, the declaring file is padded), overriding, an #event method, a class without parent"""
+    n = rng.randint(2, 4)
+    names = ["aRoot%d" % rng.randrange(100)] + ["aKid%d_%d" % (i, rng.randrange(100)) for i in range(1, n)]
+    files = {}
+    decls = {}
+    for i, nm in enumerate(names):
+        par = None if i == 0 else names[rng.randrange(i)]
+        pad = rng.choice([0, 0, 3, 12, 40]) if i == 0 or rng.random() < 0.4 else 0
+        L = ["class %s%s" % (nm, " (%s)" % (par if rng.random() < 0.7 else par.upper()) if par else "")]
+        L += [""] * pad
+        mine = ["Fld%d" % i, "Shared"] if rng.random() < 0.8 else ["Fld%d" % i]
+        for f in mine:
+            L.append("%s : int4" % f)
+        meths = ["Run%d" % i] + (["Common"] if rng.random() < 0.7 else []) + (["OnEvt#Changed"] if rng.random() < 0.2 else [])
+        refs = []
+        for q in range(i + 1):
+            refs += ["self.Fld%d" % q, "self.Run%d" % q]
+        refs += ["self.Shared", "self.Common", "x = Fld0", "Run0()"]
+        for m in meths:
+            isproc = rng.random() < 0.7
+            L.append(("proc %s" if isproc else "func %s return int4") % m)
+            if m == meths[0]:
+                L.append("  var v : %s" % names[rng.randrange(n)])
+                L += ["  " + r for r in rng.sample(refs, min(len(refs), rng.randint(2, 6)))]
+                L.append("  v.Shared")
+            L.append("endproc" if isproc else "endfunc")
+        files[nm + ".god"] = "\n".join(L) + "\n"
+    return files
+
+
+def cross_file_responses(ctx, cov):
+    import os, re, shutil, tempfile
+    from vlib import lsp
+    rng = random.Random(ctx.seed * 7919 + 8)
+    binary = lsp.build_server()
+    nws = 25 if ctx.quick else 400
+    nloc = 0
+    for w in range(nws):
+        files = _ws_files(rng)
+        root = tempfile.mkdtemp(prefix="goldverif-c08-")
+        try:
+            for f, t in files.items():
+                open(os.path.join(root, f), "w").write(t)
+            uris = {lsp.file_uri(os.path.join(root, f)): t for f, t in files.items()}
+            s = lsp.Session(binary, root)
+            s.initialize(root)
+            rid = [10]
+
+            def ask(method, params):
+                rid[0] += 1
+                s.request(rid[0], method, params)
+                r = s.wait_response(rid[0], 30)
+                return (r or {}).get("result") if r and "result" in r else None
+
+            def check(kind, uri, rng_, sel, q):
+                if uri not in uris:
+                    return "%s names a document that is not in the workspace: %s" % (kind, uri)
+                t = uris[uri]
+                for nm_, r in (("range", rng_), ("selection range", sel)):
+                    if r is None:
+                        continue
+                    e = range_ok(t, as_range(r))
+                    if e:
+                        return "%s %s %s in %s: %s (asked: %s)" % (kind, nm_, as_range(r), os.path.basename(uri), e, q)
+                if rng_ is not None and sel is not None and sel_inside(sel, rng_):
+                    return "%s in %s: %s (asked: %s)" % (kind, os.path.basename(uri), sel_inside(sel, rng_), q)
+                return None
+
+            bad = None
+            for uri, t in uris.items():
+                lines = t.split("\n")
+                poss = [(li, m.start() + (1 if m.end() - m.start() > 1 else 0)) for li, l in enumerate(lines) for m in re.finditer(r"[A-Za-z_][A-Za-z0-9_#]*", l)]
+                for (li, co) in poss:
+                    q = "%s %d:%d" % (os.path.basename(uri), li, co)
+                    pp = {"textDocument": {"uri": uri}, "position": {"line": li, "character": co}}
+                    for l in ask("textDocument/definition", pp) or []:
+                        nloc += 1
+                        bad = bad or check("definition link target", l.get("targetUri"), l.get("targetRange"), l.get("targetSelectionRange"), q)
+                    items = ask("textDocument/prepareTypeHierarchy", pp) or []
+                    for it in items[:2]:
+                        for meth in ("typeHierarchy/supertypes", "typeHierarchy/subtypes"):
+                            items = items + (ask(meth, {"item": it}) or [])
+                    for it in items:
+                        nloc += 1
+                        bad = bad or check("hierarchy item", it.get("uri"), it.get("range"), it.get("selectionRange"), q)
+                    if bad:
+                        break
+                if bad:
+                    break
+            s.shutdown_exit(9, 20)
+            if bad:
+                rep = {"engine": "server(debug build)", "workspace": files, "expected": "every range lies in the document its response names, start <= end, selection inside range",
+                       "observed": bad}
+                v = core.Violation(bad, core.write_replay(ctx.pid, ctx.seed, rep), True)
+                v.coverage = cov
+                raise v
+        finally:
+            shutil.rmtree(root, ignore_errors=True)
+    return dict(workspaces=nws, locations_checked=nloc)
+
+
 def correspondence(ctx, broken_obligations=()):
     cases, hist = gen_cases(ctx)
     known = known_for(ctx)
@@ -424,6 +531,7 @@ def correspondence(ctx, broken_obligations=()):
             v = core.Violation(r, path, True)
             v.coverage = cov
             raise v
+    cov["cross_file_responses"] = cross_file_responses(ctx, cov)
     cov["project_manager_cases"] = len(pmc)
     cov["project_manager_symbols"] = n_sym
     cov["input_histogram"] = hist
